@@ -2,6 +2,7 @@
 from __future__ import annotations
 
 import keyword
+import os
 
 from hypothesis import strategies as st
 
@@ -75,6 +76,8 @@ def freeform():
                   st.sampled_from(["A", "B", "imu", "w"]), st.integers(0, 3)),
         st.builds(lambda g: f"\\{g}", st.sampled_from(_GREEK)),
     )
+    if os.environ.get("VERIF_PRE_D15"):  # only for running the checks against trees older than the D15 fix (tools)
+        return st.one_of(ident(), ident(), latex)
     return st.one_of(ident(), ident(), latex, st.sampled_from(SYMPY_CONSTANT_NAMES))
 
 
